@@ -124,7 +124,7 @@ def decode_check(bits, value, dt, mapcls, use_map, out, hist=None):
             out.append(("C01:str-type:" + name, "%s: str() gave %r" % (where, type(s))))
     except Exception as e:  # noqa
         out.append(("C01:str-raised:%s:%s" % (name, type(e).__name__), "%s: str() raised %r" % (where, e)))
-    if name not in GENERIC and name != "Command":
+    if name not in ("Command", "UnknownGearCommand", "UnknownDeviceCommand"):     # these hand the caller's frame through
         # the caller refills its receive buffer: a decoded (known) command keeps the bits it was decoded from
         try:
             f[0] = not f[0]
